@@ -304,11 +304,13 @@ Definition log_report (c : nat) (about : msg) (s : state) (e : exn) : state :=
   let '(s2, m) := stamp_here s c (VTypeName T_destination_failure) fs in
   send_report s2 m.
 
-(* Destinations.send *)
+(* Destinations.send: whether the message is a failure report is decided on the
+   message as logged, before the global fields are merged in (a global field
+   named message_type must not disable the recursion guard) *)
 Definition send (c : nat) (s : state) (m : msg) : state :=
   let m' := fupdate m (globals s) in
   let '(s1, errs) := deliver s m' in
-  if is_report m' then s1 else fold_left (log_report c m') errs s1.
+  if is_report m then s1 else fold_left (log_report c m') errs s1.
 
 (* --- tracebacks -------------------------------------------------------------- *)
 (* TRACEBACK_MESSAGE's serializer: reason/traceback through safeunicode, exception type to its name;
